@@ -1922,7 +1922,7 @@ theorem runWith_sort_eq (inner : Inner) (mode : Mode) (c : Nat) (key : Bytes) (b
         (special inner mode c "sort" (.key 0 :: bs.map Arg.raw) [ZStore.destCI (s.dbAt (s.conn c).db) key])
         (s.setDbS (s.conn c).db ((s.dbAt (s.conn c).db).get key).1) := by
   have hreg : Cmd.regular ssig.name = none := rfl
-  rw [runWith_special_run _ _ _ _ _ _ _ hreg]
+  rw [runWith_special_run _ _ _ _ _ _ _ hreg (Sys.refuses_of_gate_none hg)]
   simp only []
   change (match (ssig.apply (key :: bs) (s.dbAt (s.conn c).db)).2 with
       | .error e => (some (Reply.err (strBytes e)),
